@@ -31,7 +31,7 @@ import (
 //     elapsed at (R, T).
 
 type toOp struct {
-	K   string `json:"k"`             // send recv timeout chase update block time
+	K   string `json:"k"`             // send recv erecv timeout chase update block time
 	L   int    `json:"l,omitempty"`   // link
 	D   int    `json:"d,omitempty"`   // direction / side / chain
 	P   int    `json:"p,omitempty"`   // packet
@@ -262,7 +262,7 @@ func runC04(outer *testing.T) func(t rapid.TB, c toCase, rec *vx.Case) {
 				} else {
 					rec.Add("sends_rejected", 1)
 				}
-			case "recv":
+			case "recv", "erecv":
 				if len(w.Pkts) == 0 {
 					continue
 				}
@@ -271,7 +271,37 @@ func runC04(outer *testing.T) func(t rapid.TB, c toCase, rec *vx.Case) {
 				side := 1 - p.Dir
 				dc := pl.Chain[side]
 				var h uint64
-				switch pick(3, op.HM) {
+				if op.K == "erecv" {
+					// edge receive: take a proof height now, then let the destination produce empty blocks
+					// until the block that will carry the receive is the one just before / exactly at /
+					// just after the timeout boundary (HD = -1 / 0 / +1), and receive with the stale proof.
+					h = pktsim.ChooseHeight(w, pl, side, -1, op.Sig)
+					for k := 0; k < 16; k++ {
+						nextH := uint64(w.Chains[dc].ProposedHeader.Height)
+						nextT := w.Coord.CurrentTime.UnixNano()
+						wait := false
+						if p.V2 {
+							wait = nextT < int64(p.P2.TimeoutTimestamp)*1_000_000_000+int64(op.HD)*int64(5*time.Second)
+						} else {
+							if th := p.P1.TimeoutHeight; !th.IsZero() && int64(nextH) < int64(th.RevisionHeight)+int64(op.HD) {
+								wait = true
+							}
+							if ts := p.P1.TimeoutTimestamp; ts != 0 && p.P1.TimeoutHeight.IsZero() && nextT < int64(ts)+int64(op.HD)*int64(5*time.Second) {
+								wait = true
+							}
+						}
+						if !wait {
+							break
+						}
+						w.Block(dc, 1)
+					}
+				}
+				hm := pick(3, op.HM)
+				if op.K == "erecv" {
+					hm = -1
+				}
+				switch hm {
+				case -1:
 				case 0:
 					h = pktsim.ChooseHeight(w, pl, side, -1, op.Sig)
 				case 1:
@@ -294,13 +324,29 @@ func runC04(outer *testing.T) func(t rapid.TB, c toCase, rec *vx.Case) {
 				triedRecv[p.Idx] = true
 				logStart := len(w.Log)
 				res := w.Deliver(dc, op.Sig, msg)
+				R := uint64(res.Height)
+				// first elapsed block or the one just before it (exact, from the recorded header times)
+				eR, okR := tw.elapsedAtHeight(p, R)
+				ePrev, okPrev := tw.elapsedAtHeight(p, R-1)
+				lastOpen := false
+				if okR && !eR {
+					bt, _ := tw.ck[dc].At(R)
+					lastOpen = elapsedAt(p, clienttypes.ParseChainID(w.Chains[dc].ChainID), R+1, bt+int64(5*time.Second))
+				}
+				if okR && ((okPrev && eR && !ePrev) || lastOpen) && w.HasCommitment(p) {
+					boundary++
+					if eR {
+						rec.Class("recv-attempt-in-first-elapsed-block")
+					} else {
+						rec.Class("recv-attempt-in-last-open-block")
+					}
+				}
 				if !committedCallback(w, logStart, "recv", pktsim.DstKey(w, p)) {
 					rec.Add("recvs_rejected_or_noop", 1)
 					break
 				}
 				rec.Add("recvs_accepted", 1)
-				rec.Class("recv-%s", pl.Kind)
-				R := uint64(res.Height)
+				rec.Class("%s-%s", op.K, pl.Kind)
 				e, ok := tw.elapsedAtHeight(p, R)
 				if !ok {
 					vx.Harnessf("no recorded header time for block %d of chain %d", R, dc)
@@ -310,12 +356,8 @@ func runC04(outer *testing.T) func(t rapid.TB, c toCase, rec *vx.Case) {
 					vx.Violatef(t, rec, id, "recv-after-timeout-"+pl.Kind.String(), "step %d: %s executed on chain %d in block %d (header time %d ns) although its timeout had elapsed there (timeout height %s, timeout timestamp v1 %d ns / v2 %d s)",
 						i, p, dc, R, bt, p.P1.TimeoutHeight, p.P1.TimeoutTimestamp, p.P2.TimeoutTimestamp)
 				}
-				if ePrev, ok := tw.elapsedAtHeight(p, R-1); ok && ePrev != e {
-					boundary++
-				}
 				if nearTimeout(tw, p, R) {
-					boundary++
-					rec.Class("recv-at-boundary")
+					rec.Class("recv-accepted-near-boundary")
 				}
 			case "timeout", "chase":
 				if len(w.Pkts) == 0 {
@@ -403,7 +445,7 @@ func genC04(t *rapid.T) toCase {
 	n := rapid.IntRange(5, 30).Draw(t, "nops")
 	sends := 0
 	for i := 0; i < n; i++ {
-		k := rapid.SampledFrom([]string{"recv", "recv", "recv", "chase", "chase", "timeout", "timeout", "timeout", "send", "send", "send", "send", "update", "block", "block", "time", "update"}).Draw(t, "kind")
+		k := rapid.SampledFrom([]string{"recv", "recv", "erecv", "erecv", "chase", "chase", "timeout", "timeout", "timeout", "send", "send", "send", "send", "update", "block", "block", "time", "update"}).Draw(t, "kind")
 		if sends == 0 {
 			k = "send"
 		}
@@ -435,7 +477,7 @@ func genC04(t *rapid.T) toCase {
 				op.TT = rapid.IntRange(1, 60).Draw(t, "tt")
 			default: // far
 			}
-		case "recv", "timeout", "chase":
+		case "recv", "erecv", "timeout", "chase":
 			if rapid.IntRange(0, 3).Draw(t, "recent") > 0 {
 				op.P = sends - 1 - rapid.IntRange(0, 1).Draw(t, "back")
 			} else {
@@ -464,7 +506,7 @@ func genC04(t *rapid.T) toCase {
 func TestC04(t *testing.T) {
 	vx.Check(t, vx.Prop[toCase]{
 		ID:        "C04",
-		Rule:      "two chains with v1-unordered, v1-ordered, v2 and v2-alias links; histories of send (timeout height = dest height + {0..8}, timeout time = now + k*5 s +-1 ns or + 1..60 s, v2 in whole seconds 1..60 s ahead), recv and timeout with proof heights {fresh, any stored consensus height, the stored heights around the first elapsed one}, chase = poll with fresh heights block by block until accepted, client updates, blocks, sub-second clock steps; non-trivial = a timeout whose proof height is the first/last height on either side of the elapsed boundary, a receive executed within +-1 block / 5 s of the timeout, or a recv/timeout race on one packet; distinct by full history",
+		Rule:      "two chains with v1-unordered, v1-ordered, v2 and v2-alias links; histories of send (timeout height = dest height + {0..8}, timeout time = now + k*5 s +-1 ns or + 1..60 s, v2 in whole seconds 1..60 s ahead), recv and timeout with proof heights {fresh, any stored consensus height, the stored heights around the first elapsed one}, chase = poll with fresh heights block by block until accepted, erecv = receive with a stale valid proof in the destination block just before / at / after the timeout boundary, client updates, blocks, sub-second clock steps; non-trivial = a timeout whose proof height is the first elapsed / last unelapsed destination height, a receive attempted in the first elapsed / last open destination block, or a recv/timeout race on one packet; distinct by full history",
 		MinNTFrac: 0.5,
 		Gen:       genC04,
 		Run:       runC04(t),
